@@ -169,7 +169,32 @@ func famC18(g *Gen, o *Out, n int, thorough bool) {
 		if noWrap {
 			args = append(args, "--no-wrap")
 		}
-		args = append(args, tops...)
+		// the same sources as a user may spell them: absolute, relative to the working directory, with a
+		// "./" in front, with the trailing slash that tab completion leaves on a directory
+		for _, tp := range tops {
+			sp := tp
+			st, serr := os.Lstat(tp)
+			isDir := serr == nil && st.IsDir()
+			switch g.pick(5) {
+			case 1:
+				if rel, err := filepath.Rel(sb, tp); err == nil {
+					sp = rel
+				}
+			case 2:
+				if rel, err := filepath.Rel(sb, tp); err == nil {
+					sp = "./" + rel
+				}
+			case 3:
+				if isDir {
+					sp = tp + "/"
+				}
+			case 4:
+				if rel, err := filepath.Rel(sb, tp); err == nil && isDir {
+					sp = rel + "/"
+				}
+			}
+			args = append(args, sp)
+		}
 		_, cse, cerr := runCar(nil, sb, args...)
 		// the engine, in process
 		blocks, eroot, eerr := engineBlocks(noWrap, tops)
